@@ -98,7 +98,7 @@ let err_of (tok : string) =
    The driver PROPOSES certificates (how the frames split into fibers, which plan / outcome
    stream each fiber had, for C13 a schedule of `execute`); the extracted checkers decide. *)
 type e2e_rec = { api : string; idem : bool; pol : policy; spec : (int * int) option; cl0 : consistency;
-                 nn : int; down : n list; pg : int; t0 : n; tr : n; mg : n; res : string; co : n option; tmo : int option;
+                 nn : int; down : n list; pg : int; t0 : n; tr : n; mg : n; res : string; co : n option; tmo : int option; sm : n;
                  frs : frame list }
 
 let strip1 s = String.sub s 1 (String.length s - 1)
@@ -133,6 +133,7 @@ let parse_record (tok : string) : e2e_rec =
                 | _ -> failwith "bad spec");
       cl0 = cl_of (g "cl"); nn = hex "n"; down = nlist_of_string (g "down"); pg = hex "pg";
       t0 = n_of_hex (g "t0"); tr = n_of_hex (g "tr"); mg = n_of_hex (g "mg"); res = g "res";
+      sm = (match List.assoc_opt "sm" tbl with Some x -> n_of_hex x | None -> n_of_int 20000);
       tmo = (match List.assoc_opt "to" tbl with Some "-" | None -> None | Some t -> Some (int_of_string ("0x" ^ t)));
       co = (match List.assoc_opt "co" tbl with Some "-" | None -> None | Some c -> Some (n_of_hex c));
       frs = (if g "fr" = "-" then [] else List.map frame_of_string (String.split_on_char ',' (g "fr"))) }
@@ -250,7 +251,7 @@ let timeout_accepted (r : e2e_rec) : bool =
     let specn = Option.map (fun (m, _) -> nat_of_int m) r.spec in
     let max = match gate r with Some m -> m | None -> 0 in
     List.exists (fun (cs, assign) ->
-        check_timeout r.pol r.idem specn r.cl0 nodes r.down cs assign r.frs r.t0 (n_of_int (ms * 1000)) r.tr r.mg)
+        check_timeout r.pol r.idem specn r.cl0 nodes r.down cs assign r.frs r.t0 (n_of_int (ms * 1000)) r.tr r.mg r.sm)
       (multi_certs r max)
 
 let rec_summary (r : e2e_rec) =
@@ -310,9 +311,8 @@ let e2e13_record (tok : string) : string =
   | None ->
     (* "it always returns": the call did not come back within the runner's 40 s although every frame
        had been answered and no scheduling stall was measured *)
+    (* the E13 mix sets no client-side timeouts: this branch is reached by replayed / hand-made lines only *)
     if r.res = "timeout" && timeout_accepted r then "ok"
-    else if r.res = "timeout" && r.tmo <> None && not (prop_timeout_frames r.tr r.mg r.frs)
-    then "viol e2e frame-after-the-timeout " ^ rec_summary r        (* C06_e2e_timeout_frames *)
     else if r.res = "hang" && List.for_all (fun f -> f.f_ans <> AnsNone) r.frs && int_of_n r.mg < 1_000_000
     then "viol e2e no-return " ^ rec_summary r
     else (match direct_viol None with
@@ -378,6 +378,10 @@ let verdict case impl =
        does not fix the ignorable class (the model's table is the reading): where the real table differs
        from the model's for an outcome of this case, every difference is a broken correspondence *)
     let cls, observed = List.partition (fun t -> String.length t >= 2 && String.sub t 0 2 = "c=") observed in
+    let bad_token = match cls with
+      | [c] -> c <> "c=-" && String.length c - 2 <> List.length fs
+      | _ -> true in
+    if bad_token then "error X-line-without-a-well-formed-c=-token" else
     let reclassified = match cls with
       | [c] when c <> "c=-" ->
         let bits = String.sub c 2 (String.length c - 2) in
